@@ -121,6 +121,19 @@ func (fg *FnGen) callWith(cc *ssa.CallCommon, args []*Val, resT types.Type, pos 
 		if con != nil && len(con.Params) > 0 {
 			names = con.Params
 		}
+		if con == nil && fn == nil && !cc.IsInvoke() {
+			// call of a function-typed field declared `decl funcfield T.f pure`
+			if u, ok := cc.Value.(*ssa.UnOp); ok && u.Op == token.MUL {
+				if _, p, _, ok := staticPrefix(u.X); ok {
+					for _, d := range fg.g.cs.Decls {
+						if d.Kind == "funcfield" && len(d.Args) >= 2 && strings.HasSuffix(p, "."+d.Args[0]) && d.Args[1] == "pure" {
+							fg.note("assumed pure: calls of the function-typed field " + d.Args[0])
+							con = &Contract{Key: d.Args[0], PkgPath: d.PkgPath, HasMod: true, Pure: true, Trusted: "funcfield declared pure", Safety: map[string]bool{}, Loops: map[int]*LoopContract{}}
+						}
+					}
+				}
+			}
+		}
 		if con != nil {
 			res = fg.applyContract(con, name, names, args, resT, pos, isGo)
 		} else {
@@ -442,6 +455,9 @@ func (fg *FnGen) uncontractedCall(cc *ssa.CallCommon, fn *ssa.Function, name str
 			fg.havocReachable(a, pos)
 		}
 		fg.havocAllocMonotone()
+	case cc.IsInvoke() && isErrorInterface(cc.Value.Type()):
+		// error.Error(): assumed to be a read-only accessor
+		fg.note("error.Error() assumed pure")
 	case cc.IsInvoke() && fg.g.externalInterface(cc.Value.Type()):
 		// method of an interface type declared outside the repository (arena.Arena, io.Writer, context.Context...):
 		// like an external function it writes only through its arguments and performs none of the repository's events
@@ -637,24 +653,8 @@ func (g *Gen) writeSetOf(fn *ssa.Function) *writeSet {
 	ws := &writeSet{comps: map[string]bool{}}
 	g.writeSets[fn] = ws
 	if con := g.contractFor(fn); con != nil {
-		// a contracted callee inside an uncontracted one: heap frame over-approximated by "all" unless pure
-		for _, m := range con.Modifies {
-			if ev, ok := countEvent(m); ok {
-				if ev == "*" {
-					ws.allEvents = true
-				} else {
-					ws.comps["cnt:"+ev] = true
-				}
-			} else {
-				ws.all = true
-			}
-		}
-		if !con.HasMod || con.ModAll {
-			ws.all = true
-		}
-		for _, em := range con.Emits {
-			ws.comps["cnt:"+em.Event] = true
-		}
+		// a contracted callee inside an uncontracted one: heap frame over-approximated by "all" unless simple
+		simpleMods(con, ws, g)
 		ws.done = true
 		return ws
 	}
@@ -729,21 +729,12 @@ func (g *Gen) writeSetOf(fn *ssa.Function) *writeSet {
 					// interface method with a contract?
 					if cc.IsInvoke() {
 						if con := g.contractForMethod(cc.Value.Type(), cc.Method.Name()); con != nil {
-							for _, m := range con.Modifies {
-								if ev, ok := countEvent(m); ok {
-									ws.comps["cnt:"+ev] = true
-								} else {
-									ws.all = true
-								}
-							}
-							if !con.HasMod || con.ModAll {
-								ws.all = true
-							}
-							for _, em := range con.Emits {
-								ws.comps["cnt:"+em.Event] = true
-							}
+							simpleMods(con, ws, g)
 							continue
 						}
+					}
+					if cc.IsInvoke() && isErrorInterface(cc.Value.Type()) {
+						continue
 					}
 					if cc.IsInvoke() && g.externalInterface(cc.Value.Type()) {
 						for _, a := range cc.Args {
@@ -758,13 +749,13 @@ func (g *Gen) writeSetOf(fn *ssa.Function) *writeSet {
 				}
 				if !g.inRepo(fnPkgPath(callee)) {
 					if con := g.contractFor(callee); con != nil {
-						for _, m := range con.Modifies {
-							if ev, ok := countEvent(m); ok {
-								ws.comps["cnt:"+ev] = true
-							}
+						sub := &writeSet{comps: map[string]bool{}}
+						simpleMods(con, sub, g)
+						for c := range sub.comps {
+							ws.comps[c] = true
 						}
-						for _, em := range con.Emits {
-							ws.comps["cnt:"+em.Event] = true
+						if !sub.all {
+							continue // external callee fully described by its assumed contract
 						}
 					}
 					// external code writes only through its arguments, one level (assumption); a func-typed
@@ -874,6 +865,12 @@ func (g *Gen) isStableComp(comp string) bool {
 func (g *Gen) checkStableDecls() []*Obligation {
 	var out []*Obligation
 	for _, d := range g.cs.Decls {
+		if d.Kind == "stableelems" && len(d.Args) >= 1 {
+			if o := g.checkStableElems(d); o != nil {
+				out = append(out, o)
+			}
+			continue
+		}
 		if d.Kind != "stable" || len(d.Args) < 1 {
 			continue
 		}
@@ -972,8 +969,10 @@ func dedupe(xs []string) []string {
 
 func rootIsAlloc(addr ssa.Value) bool {
 	switch x := addr.(type) {
-	case *ssa.Alloc:
+	case *ssa.Alloc, *ssa.MakeSlice:
 		return true
+	case *ssa.Slice:
+		return rootIsAlloc(x.X)
 	case *ssa.FieldAddr:
 		return rootIsAlloc(x.X)
 	case *ssa.IndexAddr:
@@ -1032,4 +1031,147 @@ func (g *Gen) externalInterface(T types.Type) bool {
 		return false // error, any, anonymous interfaces: no
 	}
 	return !g.inRepo(n.Obj().Pkg().Path())
+}
+
+func isErrorInterface(T types.Type) bool {
+	n, ok := types.Unalias(T).(*types.Named)
+	return ok && n.Obj().Pkg() == nil && n.Obj().Name() == "error"
+}
+
+// simpleMods converts contract modifies entries that do not depend on arguments (global(x), count(ev))
+// to component names; ok=false if some entry needs evaluation.
+func simpleMods(con *Contract, ws *writeSet, g *Gen) {
+	for _, m := range con.Modifies {
+		if ev, ok := countEvent(m); ok {
+			if ev == "*" {
+				ws.allEvents = true
+			} else {
+				ws.comps["cnt:"+ev] = true
+			}
+			continue
+		}
+		if c, ok := m.(*CCall); ok {
+			if id, ok := c.Fn.(*CIdent); ok && id.Name == "global" && len(c.Args) == 1 {
+				comp := "gg:" + c.Args[0].cstr()
+				ws.comps[comp] = true
+				g.compSortHints[comp] = SInt
+				continue
+			}
+		}
+		ws.all = true
+	}
+	if !con.HasMod || con.ModAll {
+		ws.all = true
+	}
+	for _, em := range con.Emits {
+		ws.comps["cnt:"+em.Event] = true
+	}
+}
+
+// checkStableElems: `decl stableelems <elemtype>`: elements of slices of this type are written only
+// into arrays allocated in the same function (construction), anywhere in the declaring package.
+func (g *Gen) checkStableElems(d *Decl) *Obligation {
+	sp := g.ssaPkgs[d.PkgPath]
+	if sp == nil {
+		return nil
+	}
+	T := g.resolveTypeString(d.Args[0], d.PkgPath)
+	if T == nil {
+		return &Obligation{Name: g.shortPkg(d.PkgPath) + "." + d.Args[0] + "#stable.elems", Kind: "stable", Fn: d.Args[0], Desc: "unknown type", NAsserts: -1,
+			Res: SolverResult{Result: "unknown", Output: "cannot resolve type " + d.Args[0]}}
+	}
+	prefix := "E:" + typeKey(T)
+	g.stable[prefix] = map[string]bool{}
+	var offenders []string
+	var visit func(fn *ssa.Function)
+	visit = func(fn *ssa.Function) {
+		for _, b := range fn.Blocks {
+			for _, ins := range b.Instrs {
+				switch x := ins.(type) {
+				case *ssa.Store:
+					kind, p, _, ok := staticPrefix(x.Addr)
+					if ok && kind+p == prefix && !rootIsAlloc(x.Addr) {
+						offenders = append(offenders, fnKey(fn)+" ("+g.fset.Position(x.Pos()).String()+")")
+					}
+				case *ssa.Call:
+					if bi, ok := x.Call.Value.(*ssa.Builtin); ok && (bi.Name() == "append" || bi.Name() == "copy" || bi.Name() == "clear") {
+						if st, ok := types.Unalias(x.Call.Args[0].Type()).Underlying().(*types.Slice); ok && "E:"+typeKey(st.Elem()) == prefix {
+							// append/copy into a slice: allowed only when the destination is freshly made here or nil
+							if !rootIsAlloc(x.Call.Args[0]) && !isNilConst(x.Call.Args[0]) && !isAppendChainOfFresh(x.Call.Args[0]) {
+								offenders = append(offenders, fnKey(fn)+" "+bi.Name()+" ("+g.fset.Position(x.Pos()).String()+")")
+							}
+						}
+					}
+				}
+			}
+		}
+		for _, a := range fn.AnonFuncs {
+			visit(a)
+		}
+	}
+	for _, m := range sp.Members {
+		switch x := m.(type) {
+		case *ssa.Function:
+			visit(x)
+		case *ssa.Type:
+			for _, TT := range []types.Type{x.Type(), types.NewPointer(x.Type())} {
+				ms := g.prog.MethodSets.MethodSet(TT)
+				for i := 0; i < ms.Len(); i++ {
+					if fn := g.prog.MethodValue(ms.At(i)); fn != nil && fn.Synthetic == "" && fn.Pkg == sp {
+						visit(fn)
+					}
+				}
+			}
+		}
+	}
+	o := &Obligation{Name: g.shortPkg(d.PkgPath) + "." + sanitize(d.Args[0]) + "#stable.elems", Kind: "stable", Fn: d.Args[0],
+		Desc: "elements of []" + d.Args[0] + " are written only during construction of a fresh slice", NAsserts: -1}
+	if len(offenders) == 0 {
+		o.Res = SolverResult{Result: "unsat", Solver: "ssa-scan"}
+	} else {
+		sort.Strings(offenders)
+		o.Res = SolverResult{Result: "unknown", Output: "also written by: " + strings.Join(dedupe(offenders), "; ")}
+	}
+	return o
+}
+
+func isNilConst(v ssa.Value) bool {
+	c, ok := v.(*ssa.Const)
+	return ok && c.Value == nil
+}
+
+// isAppendChainOfFresh: x = append(append(make/nil, ...), ...) possibly through phis of such values.
+func isAppendChainOfFresh(v ssa.Value) bool {
+	seen := map[ssa.Value]bool{}
+	var rec func(v ssa.Value) bool
+	rec = func(v ssa.Value) bool {
+		if seen[v] {
+			return true
+		}
+		seen[v] = true
+		switch x := v.(type) {
+		case *ssa.MakeSlice:
+			return true
+		case *ssa.Const:
+			return x.Value == nil
+		case *ssa.Slice:
+			return rec(x.X)
+		case *ssa.Alloc:
+			return true
+		case *ssa.Call:
+			if bi, ok := x.Call.Value.(*ssa.Builtin); ok && bi.Name() == "append" {
+				return rec(x.Call.Args[0])
+			}
+			return false
+		case *ssa.Phi:
+			for _, e := range x.Edges {
+				if !rec(e) {
+					return false
+				}
+			}
+			return true
+		}
+		return false
+	}
+	return rec(v)
 }
